@@ -44,7 +44,7 @@ EXITS = {"quit", "exit", "end-filter", "end-list", "endif", "exit-address-family
 COMMON = [S(["a"]), S(["undo a2"]), S(["b 1"], [S(["c"]), S(["d 1"], [S(["e"], [S(["f"])])]), S(["undo d 2"])]), S(["b 2"], [S(["c"])]),
           S(["EMPTYBLOCK p"])]
 SPECIAL = {
-    "huawei": [S(["xpl route-filter F"], [S(["if x then"], [S(["apply y"])]), S(["else"], [S(["refuse"])])]),
+    "huawei": [S(["xpl route-filter F"], [S(["if x then"], [S(["apply y"])]), S(["if y then"], [S(["apply z"])]), S(["else"], [S(["refuse"])])]),
                S(["xpl ip-prefix-list L"], [S(["10.0.0.0 8"])]),
                S(["rsa peer-public-key k"], [S(["public-key-code begin"], [S(["AAAA"])])])],
     "cisco": [S(["router bgp 1"], [S(["address-family ipv4"], [S(["network x"])]), S(["neighbor y"])])],
